@@ -34,6 +34,10 @@ CHECKS = {
  'C14': dict(engine='ReaderLookup', design='6 (C14)', technique='TLA+ spec ReaderLookup.tla (variants computed on character sequences from the documented rule) explored with TLC; every scenario materialised as a directory tree and as a (nested) ZIP and asked of the real FileReader/ZipReader; results validated by TLC (ReaderLookupTrace); UrlDispatch.tla decision table against getReadersFromUrls()',
              text='RightFile (name is a variant, content and time stamp are that entry\'s), NotFoundExactly, NeverUnrelated, OnlyPackageErrors for request names (suffix present / absent / -MIB in the middle / mixed case) x option subsets x .index mapping x recursive flag x <=2 entries from variants and near misses at three nesting levels (sub-directories; folders and nested archives in ZIPs); all URL shapes (scheme x extension).',
              note='Trusted: TLC, zipfile/os for building the sources, the identification of returned text with an entry. Scope: <=2 entries per source from a 20-name universe per request; quick tier samples 2500 scenarios per slice. HTTP/FTP readers are only constructed. Empty archive members are not generated (ZipReader cannot tell them from read errors).'),
+
+ 'C12': dict(engine='History', design='6 (C12)', technique='TLA+ spec History.tla (reset discipline of one instance fed a history) enumerates the histories with TLC; each is replayed on a shared real instance and element-wise compared with fresh instances; hash-seed runs in sub-processes; recorded traces validated by TLC (HistoryTrace: Stateless, SeedFree)',
+             text='Stateless for all histories of length <=2 (quick; <=3 thorough) over 14 valid and invalid MIB texts for each instance kind (parser in two dialects, symbol-table generator, JSON and pysnmp generators, MibCompiler, the same syntax tree generated twice); SeedFree for every input and backend over hash seeds {0,1,2,3,7} (quick) / 0..31 (thorough).',
+             note='Trusted: TLC; the fresh-instance result is the oracle (differential), the TLA+ model contributes the history enumeration, the reset discipline and the deviation names. Generated comments (time stamp, host, user) are excluded. Other interpreters than the installed CPython are not available.'),
 }
 PENDING = 'check under construction in this round; will be claimed when its TLA+ spec, replay and trace validation exist'
 
@@ -48,6 +52,7 @@ m = {
              {'name': 'AtomicWrite', 'path': 'specs/AtomicWrite.tla', 'serves_properties': ['C13'], 'kind_free_text': 'TLA+ model of putData() as system-call steps with fault injection and two interleaved writers; AtomicWriteTrace.tla'},
              {'name': 'Searcher', 'path': 'specs/Searcher.tla', 'serves_properties': ['C10'], 'kind_free_text': 'TLA+ decision model of the file searchers over directory configurations; SearcherTrace.tla'},
              {'name': 'ReaderLookup', 'path': 'specs/ReaderLookup.tla', 'serves_properties': ['C14', 'C19'], 'kind_free_text': 'TLA+ model of which file a local/ZIP source may return for a name; ReaderLookupTrace.tla; UrlDispatch.tla'},
+             {'name': 'History', 'path': 'specs/History.tla', 'serves_properties': ['C12'], 'kind_free_text': 'TLA+ model of the reset discipline of parser / generator / compiler instances; HistoryTrace.tla'},
              {'name': 'OidIndex', 'path': 'specs/OidIndex.tla', 'serves_properties': ['C18'], 'kind_free_text': 'TLA+ model of the persistent OID->module index and its merge/compaction; OidIndexTrace.tla'}],
  'checks': [], 'not_applicable': [],
  'notes': 'All checks: cwd=/verif, ./check <id> --tier quick|thorough; exit 0 pass, 1 violation (VIOLATION line), 2 machinery failure. known_findings.json lists open findings and fixed: records.',
